@@ -45,7 +45,8 @@ EXHAUSTIVE_SCOPE = {
   "quick": ("one connection: all 24 orders of {hello, features, desc-stats, barrier outcome} x 3 barrier outcomes x every "
             "insertion of <= 2 of 5 asynchronous message kinds, each followed by port-status/sendToDPID/EOF; two connections: "
             "all 70 merges of [open, features, barrier, lose] x same/different dpid x 4x4 loss kinds; three connections: all 90 "
-            "merges of [handshake, lose] x 4 dpid assignments x 2 loss kinds"),
+            "merges of [handshake, lose] x 4 dpid assignments x 2 loss kinds; EOF / reset at 7 byte offsets inside each of the 6 "
+            "messages of a handshake while an announced connection of the same dpid is live"),
   "thorough": ("as quick with <= 3 asynchronous messages, three connections with [open, handshake, lose] stages (1680 merges x 4 "
                "dpid assignments), and EOF / reset after every byte prefix of the handshake with a second live connection on the same dpid"),
 }
@@ -818,6 +819,8 @@ def enum_cut(tier):
       for n in range(L):
         if seq[upto][0] == "desc" and 16 < n < L - 16 and n % 37:
           continue
+        if tier == "quick" and n not in (0, 1, 7, 8, 9, L // 2, L - 1):
+          continue
         ops = list(pre) + [["m", 1, m] for m in seq[:upto]]
         if n:
           ops.append(["cut", 1, seq[upto], n, how])
@@ -919,12 +922,13 @@ def plan(tier):
       Enum("handshake-interleavings", lambda: enum_handshake(2), shards=16),
       Enum("two-connections", lambda: enum_two(tier), shards=8),
       Enum("three-connections", lambda: enum_three(tier), shards=4),
+      Enum("loss-inside-the-handshake", lambda: enum_cut(tier), shards=2),
       Hyp("histories", lambda: _history(tier), examples=4000, shards=16),
     ]
   return [
     Enum("handshake-interleavings", lambda: enum_handshake(3), shards=16),
     Enum("two-connections", lambda: enum_two(tier), shards=16),
     Enum("three-connections", lambda: enum_three(tier), shards=16),
-    Enum("loss-at-every-byte", lambda: enum_cut(tier), shards=16),
+    Enum("loss-inside-the-handshake", lambda: enum_cut(tier), shards=16),
     Hyp("histories", lambda: _history(tier), examples=150000, shards=16),
   ]
